@@ -14,7 +14,8 @@ import sys
 import time
 import urllib.request
 
-ROOT = '/verif'
+# /verif normally; a `vp run` snapshot uses its own tree (own build output, scratch, evidence)
+ROOT = os.path.dirname(os.path.dirname(os.path.abspath(__file__)))
 REPO = '/repo'
 TARGET = ROOT + '/.target'
 WORK = ROOT + '/.work'
